@@ -14,7 +14,8 @@ from ..engine_bfs import Search, canon
 from ..engine_enum import Acc, run_shards
 from ..evidence import Report
 from ..ref import midi as ref
-from .parser_common import ALPHA15, hexs, stream_oracle
+from .parser_common import (ALPHA15, INVALID_ITEMS, hexs, reject_probe,
+                            stream_oracle)
 
 PROP = 'C04'
 
@@ -221,6 +222,16 @@ def worker(shard):
     mido = common.import_mido()
     acc = Acc()
     prefix, n = shard
+    if prefix == 'reject':
+        # after a rejected element the parser stays total and sound
+        for k in range(0, 4):
+            for data in itertools.product(ALPHA15, repeat=k):
+                for i in range(k + 1):
+                    for bad in INVALID_ITEMS:
+                        acc.evals += 1
+                        reject_probe(mido, (), data[:i], data[i:], bad,
+                                     acc.violation, 'strings/reject')
+        return acc
     if prefix is None:          # the strings of length 0 and 1
         check_string(mido, (), acc)
         for a in ALPHA15:
@@ -253,7 +264,8 @@ def run():
     rep.require(srch.states > 100, f'only {srch.states} parser states')
     rep.require(not srch.capped, 'closure search hit a cap')
 
-    shards = [(None, N)] + [((a, b), N) for a in ALPHA15 for b in ALPHA15]
+    shards = [(None, N), ('reject', N)] + [((a, b), N) for a in ALPHA15
+                                            for b in ALPHA15]
     run_shards(worker, shards, rep)
     rep.coverage['traces_validated_against_impl'] += rep.coverage['evaluations']
     rep.coverage['exhaustive'] = True
@@ -285,6 +297,11 @@ def run():
 def check_case(case):
     mido = common.import_mido()
     acc = Acc()
+    if case['kind'] == 'reject':
+        out = []
+        reject_probe(mido, case['A'], case['B'], case['C'], eval(case['bad']),
+                     lambda k, w, c=None: out.append((k, w)), 'strings/reject')
+        return out
     if case['kind'] == 'chunked':
         p = mido.Parser()
         out = []
